@@ -37,7 +37,8 @@ type c01Stream struct {
 type c01Scenario struct {
 	Name      string
 	Streams   []c01Stream
-	Datagrams int // per direction
+	Datagrams int  // per direction
+	Bulk      bool // larger than the initial congestion window: only used by the outage part
 }
 
 var c01Scenarios = []c01Scenario{
@@ -56,6 +57,9 @@ var c01Scenarios = []c01Scenario{
 		{Kind: "bidi-echo", Size: 1500, Chunks: []int{1, 1, 1, 1, 1, 1495}, ReadBuf: 1},
 		{Kind: "uni-s2c", Size: 5000, Chunks: []int{2500, 2500}, ReadBuf: 97},
 	}},
+	// transfers of several congestion windows: the sender is blocked by its window most of the time
+	{Name: "bulk-upload", Bulk: true, Streams: []c01Stream{{Kind: "uni-c2s", Size: 150000, Chunks: []int{150000}, ReadBuf: 8192}}},
+	{Name: "bulk-download", Bulk: true, Streams: []c01Stream{{Kind: "uni-s2c", Size: 150000, Chunks: []int{150000}, ReadBuf: 8192}}},
 }
 
 func c01Pattern(stream, i int) byte { return byte((i*7 + stream*53 + 11) % 251) }
@@ -590,6 +594,9 @@ func TestVerifC01(t *testing.T) {
 		c01Part(t, "k1-all-datagrams", func(e explore.Env) ([]c01Config, string) {
 			var cfgs []c01Config
 			for si := range c01Scenarios {
+				if c01Scenarios[si].Bulk {
+					continue
+				}
 				for _, k := range kinds {
 					for v := 1; v <= 2; v++ {
 						base := c01Config{Scenario: si, Kind: k, Version: v, Seed: uint64(e.Seed) + 1}
@@ -603,7 +610,7 @@ func TestVerifC01(t *testing.T) {
 					}
 				}
 			}
-			return cfgs, fmt.Sprintf("every fault map with exactly 1 non-default fate (%d fates) on any datagram of the fault-free run, both directions, handshake included; %d scenarios x %v x {v1,v2}", len(c01Fates), len(c01Scenarios), kinds)
+			return cfgs, fmt.Sprintf("every fault map with exactly 1 non-default fate (%d fates) on any datagram of the fault-free run, both directions, handshake included; %d scenarios x %v x {v1,v2}", len(c01Fates), len(c01Scenarios)-2, kinds)
 		}),
 		c01Part(t, "k2-first-datagrams", func(e explore.Env) ([]c01Config, string) {
 			N := 8
@@ -629,6 +636,40 @@ func TestVerifC01(t *testing.T) {
 			return cfgs, fmt.Sprintf("every fault map with exactly 2 non-default fates (%d fates) among the first %d datagrams of each direction; scenarios %v x %v x v1", len(c01FatesSmall), N, scen, kinds)
 		}),
 	}
+	parts = append(parts, c01Part(t, "outages", func(e explore.Env) ([]c01Config, string) {
+		// a period in which every datagram of one direction is lost, starting at any datagram of
+		// a transfer of several congestion windows: everything the sender has in flight is lost
+		// while it is blocked by its window, and the path is alive again long before the idle
+		// timeout - the transfer must complete
+		step := 3
+		ks := []string{"plain"}
+		if e.Thorough() {
+			step, ks = 1, kinds
+		}
+		var cfgs []c01Config
+		n := 0
+		for si := range c01Scenarios {
+			if !c01Scenarios[si].Bulk {
+				continue
+			}
+			n++
+			for _, k := range ks {
+				base := c01Config{Scenario: si, Kind: k, Version: 1, Seed: uint64(e.Seed) + 1}
+				cnt := c01Baseline(t, base)
+				cfgs = append(cfgs, base)
+				for d := sim.C2S; d <= sim.S2C; d++ {
+					for idx := 0; idx < cnt[d]; idx += step {
+						for _, f := range []sim.Fate{sim.Outage100ms, sim.Outage1s} {
+							c := base
+							c.Faults = sim.FaultMap{{Slot: sim.Slot{Dir: d, Idx: idx}, Fate: f}}
+							cfgs = append(cfgs, c)
+						}
+					}
+				}
+			}
+		}
+		return cfgs, fmt.Sprintf("%d transfers of 150 kB (upload, download) x %v x an outage of 100 ms or 1 s (every datagram of one direction lost) starting at every %d. datagram of either direction of the fault-free run", n, ks, step)
+	}))
 	if explore.GetEnv().Thorough() {
 		parts = append(parts, c01Part(t, "k3-first-datagrams", func(e explore.Env) ([]c01Config, string) {
 			var cfgs []c01Config
